@@ -60,7 +60,7 @@ fn main() {
     }
     let kernel_n = arg_u64("--kernel-n", if thorough { 4000 } else { 600 }) as usize;
     // the kernel sample takes the corpus, then a stride through everything else
-    let files = write_cases(&out, "C06", "Model.ExprCases", "ecase", "ecase_failures", &lines, 0, shards)
+    let files = write_cases(&out, "C06", "expr", "Model.ExprCases", "ecase", "ecase_failures", &lines, 0, shards)
         .expect("write cases");
     let stride = (lines.len() / kernel_n.max(1)).max(1);
     let sample: Vec<G> = lines
@@ -69,7 +69,7 @@ fn main() {
         .filter(|(i, _)| *i < n_corpus || i % stride == 0)
         .map(|(_, g)| g.clone())
         .collect();
-    let kfiles = write_cases(&out, "C06k", "Model.ExprCases", "ecase", "ecase_failures", &sample, sample.len(), shards)
+    let kfiles = write_cases(&out, "C06k", "expr", "Model.ExprCases", "ecase", "ecase_failures", &sample, sample.len(), shards)
         .expect("write kernel cases");
 
     let hist_s: Vec<String> = hist.iter().map(|(k, v)| format!("{}: {}", jstr(k), v)).collect();
